@@ -35,6 +35,14 @@ CHECKS = {
             'compared with the reference model, and all four real tables are dumped and compared after every step.',
             'Trusts vlib/model.py, vlib/specpdu.py, vlib/refframe.py; only model-valid requests (C05 owns invalid ones).',
             'DESIGN.md 4 C04'),
+    'C05': ('hypothesis boundary-directed raw request PDUs after valid histories + raising datastores behind all 7 front-ends; oracle = spec classification by the reference model + before/after table dumps; exhaustive 65536 coil values and quantity/byte-count grids',
+            'Generated raw PDUs (spec codec in inconsistent mode) sweeping quantities across every limit, addresses across every '
+            'run boundary, byte counts against quantities and data lengths, every coil value word and every unassigned function '
+            'code, each after a generated valid history on a generated layout; the reference model yields the set of acceptable '
+            'outcomes and the exact normal response; any exception answer must leave all four tables unchanged. Datastore '
+            'failures (validate/get/set raising) are injected behind each of the seven front-ends and must yield exception 04.',
+            'Trusts vlib/model.py classification (spec state diagrams); two simultaneous faults accept either code.',
+            'DESIGN.md 4 C05'),
     'C18': ('hypothesis operation histories on blocks / slave contexts / server contexts vs a dict model; exhaustive small-block sweeps',
             'Generated histories of validate/get/set/reset on sequential and sparse blocks with boundary-directed addresses, '
             'of function-code-addressed operations on a slave context (zero-mode on/off), and of set/get/del/contains on '
